@@ -474,6 +474,57 @@ def check_unmatched(prog: Program, res: Result) -> None:
     res.floor(R, 4)
 
 
+def check_pass(prog: Program, res: Result) -> None:
+    """(pass) Tracker.assign_tracks hands the matcher's COMPLETE output to update_tracks: a match removed in between is a
+    detection that is neither assigned nor - because of update_tracks' `len(row_inds) > 0` guard - given a new track.
+    (queue) FixedWindowCandidates.add_new_tracks appends the frame to the window only when it created a track in this
+    call: a track-less first frame in the queue makes track() take the matching branch with zero tracks forever."""
+    R = "C09-pass"
+    tr = prog.cls(TRK).methods.get("assign_tracks")
+    if tr is None:
+        raise AnalysisError("Tracker.assign_tracks vanished")
+    res.touch(tr)
+    ups = [c for c in walk_function(tr.node) if isinstance(c, ast.Call) and norm(c.func) == "self.candidate.update_tracks"]
+    res.ob(R, len(ups) == 1, tr.qualname, "one hand-over to the candidate's update_tracks", f"{len(ups)} update_tracks calls", tr.where)
+    for c in ups:
+        ut = prog.cls(FW).methods["update_tracks"]
+        b = astq.bind_args(ut, c, skip_self=True)
+        st = enclosing_stmt(c)
+        pr = ut.pos_params
+        vals = [astq.expand_at(tr.node, b.get(pr[k]), st, unpack_calls=True) for k in (2, 3)] if len(pr) >= 4 else []
+        ok = len(vals) == 2 and all(isinstance(v, ast.Subscript) and isinstance(v.value, ast.Call) and astq.const_value(v.slice) == k for k, v in enumerate(vals)) \
+            and norm(vals[0].value) == norm(vals[1].value) and "cost_matrix" in norm(vals[0].value)
+        if ok:
+            fx = norm(vals[0].value.func)
+            ok = "matching_method" in fx or "_track_matching_methods" in fx
+        res.ob(R, ok, tr.qualname, "(row_inds, col_inds) are exactly what the matching method returned",
+               f"update_tracks receives `{short(vals[0], 50) if vals else '?'}` / `{short(vals[1], 50) if len(vals) > 1 else '?'}`: matches are filtered or rebuilt between the "
+               "matcher and update_tracks, so a detection can end up neither assigned nor registered as a new track", f"{tr.module.relpath}:{c.lineno}")
+    an = prog.cls(FW).methods.get("add_new_tracks")
+    res.touch(an)
+    apps = [c for c in astq.method_calls(an.node, "append") if norm(c.func.value) == "self.tracker_queue"]
+    res.ob(R, len(apps) == 1, an.qualname, "one append of the frame to the window", f"{len(apps)} queue appends in add_new_tracks", an.where)
+    for c in apps:
+        gs = [a for a in ancestors(c) if isinstance(a, ast.If)]
+        conj = []
+        for g in gs:
+            conj += list(g.test.values) if isinstance(g.test, ast.BoolOp) and isinstance(g.test.op, ast.And) else [g.test]
+        params = set(an.pos_params)
+        extra = [t for t in conj if not (isinstance(t, ast.Name) and t.id in params)]
+        ok = bool(extra)
+        for t in extra:
+            if isinstance(t, ast.Name):  # a flag: False before the loop, True only where a new id is allocated
+                sets = [s_ for s_ in walk_function(an.node) if isinstance(s_, ast.Assign) and norm(s_.targets[0]) == t.id]
+                trues = [s_ for s_ in sets if astq.const_value(s_.value) is True]
+                falses = [s_ for s_ in sets if astq.const_value(s_.value) is False]
+                in_alloc = all(any(isinstance(a, ast.If) and any(isinstance(x, ast.Call) and norm(x.func).endswith("get_new_track_id") for x in ast.walk(a)) and astq.in_body_of(s_, a) for a in ancestors(s_)) for s_ in trues)
+                ok = ok and len(sets) == len(trues) + len(falses) and len(falses) == 1 and bool(trues) and in_alloc and not astq.enclosing_loops(falses[0])
+        res.ob(R, ok, an.qualname, "the frame enters the window only if this call created a track",
+               f"`{short(c, 50)}` is guarded by `{' and '.join(short(t, 30) for t in conj) or 'nothing'}`: a frame in which no track was created (empty / below threshold) is queued, "
+               "after which track() keeps matching against zero tracks and never creates one", f"{an.module.relpath}:{c.lineno}")
+    res.floor(R, 4)
+
+
 def check(prog: Program, res: Result) -> None:
     check_alloc(prog, res)
     check_truth(prog, res)
@@ -485,6 +536,7 @@ def check(prog: Program, res: Result) -> None:
     _nanred.check_nan_reductions(prog, res, "C09-nan", ["sleap_nn.tracking.utils:get_bbox", "sleap_nn.tracking.utils:get_centroid"], floor=3)
     _match.check_greedy(prog, res, "C09-match")
     check_unmatched(prog, res)
+    check_pass(prog, res)
     res.assumptions += [
         "the behaviour over histories beyond these necessary conditions (e.g. that the right track is chosen) is not decided",
     ]
@@ -515,6 +567,8 @@ VARIANTS = [
     Variant("inf-second-source", TRF, "        scores = np.zeros(\n            (len(current_instances_features), len(self.candidate.current_tracks))\n        )",
             "        scores = np.full(\n            (len(current_instances_features), len(self.candidate.current_tracks)), -np.inf\n        )", "C09-inf"),
     # behaviour preserving
+    Variant("queue-flag-removed", FWF, "        if add_to_queue and is_new_track:", "        if add_to_queue:", "C09-pass"),
+    Variant("pass-filtered-matches", TRF, "        row_inds, col_inds = matching_method(cost_matrix)\n", "        row_inds, col_inds = matching_method(cost_matrix)\n        keep = [k for k, (r, c) in enumerate(zip(row_inds, col_inds)) if np.isfinite(cost_matrix[r, c])]\n        row_inds, col_inds = [row_inds[k] for k in keep], [col_inds[k] for k in keep]\n", "C09-pass"),
     Variant("match-mask-unguarded", UTF, '    # Sort edges by ascending cost.\n    rows, cols = np.unravel_index(np.argsort(cost_matrix, axis=None), cost_matrix.shape)\n    unassigned_edges = list(zip(rows, cols))\n\n    # Greedily assign edges.\n    row_inds, col_inds = [], []\n    while len(unassigned_edges) > 0:\n        # Assign the lowest cost edge.\n        row_ind, col_ind = unassigned_edges.pop(0)\n        row_inds.append(row_ind)\n        col_inds.append(col_ind)\n\n        # Remove all other edges that contain either node (in reverse order).\n        for i in range(len(unassigned_edges) - 1, -1, -1):\n            if unassigned_edges[i][0] == row_ind or unassigned_edges[i][1] == col_ind:\n                del unassigned_edges[i]\n', '    cost = np.array(cost_matrix, dtype="float64")\n    row_inds, col_inds = [], []\n    for _ in range(min(cost.shape)):\n        row_ind, col_ind = np.unravel_index(np.argmin(cost), cost.shape)\n        row_inds.append(row_ind)\n        col_inds.append(col_ind)\n        cost[row_ind, :] = np.inf\n        cost[:, col_ind] = np.inf\n', "C09-match"),
     Variant("match-mask-row-only", UTF, '    # Sort edges by ascending cost.\n    rows, cols = np.unravel_index(np.argsort(cost_matrix, axis=None), cost_matrix.shape)\n    unassigned_edges = list(zip(rows, cols))\n\n    # Greedily assign edges.\n    row_inds, col_inds = [], []\n    while len(unassigned_edges) > 0:\n        # Assign the lowest cost edge.\n        row_ind, col_ind = unassigned_edges.pop(0)\n        row_inds.append(row_ind)\n        col_inds.append(col_ind)\n\n        # Remove all other edges that contain either node (in reverse order).\n        for i in range(len(unassigned_edges) - 1, -1, -1):\n            if unassigned_edges[i][0] == row_ind or unassigned_edges[i][1] == col_ind:\n                del unassigned_edges[i]\n', '    cost = np.array(cost_matrix, dtype="float64")\n    row_inds, col_inds = [], []\n    for _ in range(min(cost.shape)):\n        row_ind, col_ind = np.unravel_index(np.argmin(cost), cost.shape)\n        if not np.isfinite(cost[row_ind, col_ind]):\n            break\n        row_inds.append(row_ind)\n        col_inds.append(col_ind)\n        cost[row_ind, :] = np.inf\n', "C09-match"),
     Variant("unmatched-by-track-id", LQF, "            new_current_instances_inds = [\n                x for x in range(len(current_instances)) if x not in row_inds\n            ]",
